@@ -227,6 +227,14 @@ class Pipeline:
             )
             if isinstance(user_selected_strategy, Path):
                 user_provided_path: Path = user_selected_strategy
+                # Like generated paths, custom path is relative to the input directory
+                # (current working directory at this point) and must not leave it
+                input_directory = Path.cwd()
+                custom_absolute_path = (input_directory / user_provided_path).resolve()
+                if not custom_absolute_path.is_relative_to(input_directory):
+                    raise InvalidDestinationError(
+                        f"Custom path {user_provided_path} is not relative to the input directory",
+                    )
                 self.renamer(source_path, user_provided_path, False)
             else:
                 self.resolve_conflict(
